@@ -506,3 +506,412 @@ Proof.
                                      pf_version pf_retry pf_user_lbl pf_user_ann].
   rewrite Pos.eqb_refl, !Z.eqb_refl. cbn [andb]. exact IH.
 Qed.
+
+(* ================= createJobPod against an independent specification ================= *)
+(* "the pod of (job, task, index)", written without the constructor: name, namespace, controller
+   owner reference, every derived annotation and label, the scheduler's job id, and the template's
+   own entries untouched *)
+Definition ann_keys := [K_TASK_INDEX; K_TASK_SPEC; K_GROUP; K_JOB_NAME; K_QUEUE; K_JOB_VERSION; K_TEMPLATE; K_RETRY].
+Definition lbl_keys := [K_TASK_INDEX; K_JOB_NAME; K_TASK_SPEC; K_NAMESPACE; K_QUEUE].
+
+Record is_pod_of (j : jobid) (t : positive) (i : Z) (ta tl : kmap) (p : pod_obj) : Prop := {
+  ip_name : po_name p = (j_name j, t, i);
+  ip_ns : po_ns p = j_ns j;
+  ip_owner : po_owner p = Some (j_name j, j_uid j);
+  ip_index_ann : kget K_TASK_INDEX (po_ann p) = Some (VNum i);
+  ip_index_lbl : kget K_TASK_INDEX (po_lbl p) = Some (VNum i);
+  ip_task_ann : kget K_TASK_SPEC (po_ann p) = Some (VTask t);
+  ip_task_lbl : kget K_TASK_SPEC (po_lbl p) = Some (VTask t);
+  ip_group : kget K_GROUP (po_ann p) = Some (VGroup (j_name j) (j_uid j));
+  ip_jobname_ann : kget K_JOB_NAME (po_ann p) = Some (VNum (j_name j));
+  ip_jobname_lbl : kget K_JOB_NAME (po_lbl p) = Some (VNum (j_name j));
+  ip_queue_ann : kget K_QUEUE (po_ann p) = Some (VNum (j_queue j));
+  ip_queue_lbl : kget K_QUEUE (po_lbl p) = Some (VNum (j_queue j));
+  ip_version : kget K_JOB_VERSION (po_ann p) = Some (VNum (j_version j));
+  ip_retry : kget K_RETRY (po_ann p) = Some (VNum (j_retry j));
+  ip_template : kget K_TEMPLATE (po_ann p) = Some (VTmpl (j_name j) t);
+  ip_namespace_lbl : kget K_NAMESPACE (po_lbl p) = Some (VNum (j_ns j));
+  ip_sched_job : sched_job_id p = Some (j_ns j, j_name j, j_uid j);     (* = namespace / PodGroup name *)
+  ip_user_ann : forall k, ~ In k ann_keys -> kget k (po_ann p) = kget k ta;
+  ip_user_lbl : forall k, ~ In k lbl_keys -> kget k (po_lbl p) = kget k tl
+}.
+
+Lemma kget_kset_same : forall k v m, kget k (kset k v m) = Some v.
+Proof.
+  induction m as [|[k' v'] m IH]; cbn; [rewrite Z.eqb_refl; reflexivity|].
+  destruct (k =? k') eqn:E; cbn; rewrite E; auto.
+Qed.
+Lemma kget_kset_other : forall k k' v m, k <> k' -> kget k (kset k' v m) = kget k m.
+Proof.
+  induction m as [|[k2 v2] m IH]; intros Hne; cbn.
+  - destruct (k =? k') eqn:E; auto. apply Z.eqb_eq in E. contradiction.
+  - destruct (k' =? k2) eqn:E; cbn.
+    + apply Z.eqb_eq in E. subst k2. destruct (k =? k') eqn:E2; auto. apply Z.eqb_eq in E2. contradiction.
+    + destruct (k =? k2); auto.
+Qed.
+Lemma kget_ksets_other : forall k kvs m, ~ In k (map fst kvs) -> kget k (ksets kvs m) = kget k m.
+Proof.
+  unfold ksets. induction kvs as [|[k' v] kvs IH]; intros m Hn; cbn [fold_left]; auto.
+  rewrite IH by (intro; apply Hn; right; assumption). cbn [fst snd].
+  apply kget_kset_other. intro; apply Hn; left; cbn; congruence.
+Qed.
+Lemma kget_ksets_in : forall k v kvs m, NoDup (map fst kvs) -> In (k, v) kvs -> kget k (ksets kvs m) = Some v.
+Proof.
+  unfold ksets. induction kvs as [|[k' v'] kvs IH]; intros m Hnd Hin; [destruct Hin|].
+  cbn in Hnd. inversion Hnd as [|? ? Hnot Hnd']; subst. cbn [fold_left fst snd]. destruct Hin as [E|Hin].
+  - inversion E; subst. fold (ksets kvs (kset k v m)). rewrite kget_ksets_other by exact Hnot. apply kget_kset_same.
+  - apply IH; auto.
+Qed.
+
+Lemma ann_writes_keys : forall j t i, map fst (ann_writes j t i) = ann_keys.
+Proof. reflexivity. Qed.
+Lemma lbl_writes_keys : forall j t i, map fst (lbl_writes j t i) = lbl_keys.
+Proof. reflexivity. Qed.
+Lemma ann_keys_nodup : NoDup ann_keys.
+Proof. unfold ann_keys. repeat constructor; cbn; intuition discriminate. Qed.
+Lemma lbl_keys_nodup : NoDup lbl_keys.
+Proof. unfold lbl_keys. repeat constructor; cbn; intuition discriminate. Qed.
+
+(* createJobPod writing into maps of its own (a copy of the template's) yields the pod of (job, task, index) *)
+Theorem make_pod_is_pod_of : forall j t i ta tl, is_pod_of j t i ta tl (make_pod j t i ta tl).
+Proof.
+  intros j t i ta tl.
+  assert (A : forall k v, In (k, v) (ann_writes j t i) -> kget k (ksets (ann_writes j t i) ta) = Some v).
+  { intros. apply kget_ksets_in; auto. rewrite ann_writes_keys. apply ann_keys_nodup. }
+  assert (L : forall k v, In (k, v) (lbl_writes j t i) -> kget k (ksets (lbl_writes j t i) tl) = Some v).
+  { intros. apply kget_ksets_in; auto. rewrite lbl_writes_keys. apply lbl_keys_nodup. }
+  constructor; unfold make_pod; cbn [po_name po_ns po_owner po_ann po_lbl]; try reflexivity;
+    try (apply A; cbn; tauto); try (apply L; cbn; tauto).
+  - unfold sched_job_id. cbn [po_ann po_ns]. rewrite (A K_GROUP (VGroup (j_name j) (j_uid j))) by (cbn; tauto). reflexivity.
+  - intros k Hk. apply kget_ksets_other. rewrite ann_writes_keys. exact Hk.
+  - intros k Hk. apply kget_ksets_other. rewrite lbl_writes_keys. exact Hk.
+Qed.
+
+(* all missing replicas of a task built in one pass: each pod is the pod of ITS OWN index *)
+Theorem build_pods_own : forall j t ta tl idxs,
+  Forall2 (fun i p => is_pod_of j t i ta tl p) idxs (build_pods j t ta tl idxs).
+Proof.
+  induction idxs as [|i idxs IH]; cbn; constructor; auto. apply make_pod_is_pod_of.
+Qed.
+
+(* REFUTED for a createJobPod that does not copy the template (seeded mutant C06-r3-1): with two
+   different indices built in one pass the first pod carries the index of the second *)
+Theorem build_pods_shared_refuted : forall j t ta tl i i',
+  i <> i' -> ~ Forall2 (fun i p => is_pod_of j t i ta tl p) [i; i'] (build_pods_shared j t ta tl [i; i']).
+Proof.
+  intros j t ta tl i i' Hne H.
+  assert (S : kget K_TASK_INDEX (fold_left (fun m i0 => ksets (ann_writes j t i0) m) [i; i'] ta) = Some (VNum i')).
+  { change (fold_left (fun m i0 => ksets (ann_writes j t i0) m) [i; i'] ta)
+      with (ksets (ann_writes j t i') (ksets (ann_writes j t i) ta)).
+    apply kget_ksets_in; [rewrite ann_writes_keys; apply ann_keys_nodup|cbn; tauto]. }
+  inversion H as [|? ? ? ? Hp _]; subst.
+  pose proof (ip_index_ann _ _ _ _ _ _ Hp) as E.
+  assert (X : Some (VNum i) = Some (VNum i')) by exact (eq_trans (eq_sym E) S).
+  inversion X. congruence.
+Qed.
+
+(* the numeric record compared with the Go pods (selector 6) reads the same object *)
+Theorem create_job_pod_reads_object : forall j (tk : task) x i ta tl,
+  let p := make_pod j (t_name tk) i ta tl in
+  let f := create_job_pod (j_version j) (j_retry j) tk x i in
+  kget K_TASK_INDEX (po_ann p) = Some (VNum (pf_idx f)) /\ kget K_TASK_INDEX (po_lbl p) = Some (VNum (pf_lbl_idx f)) /\
+  kget K_TASK_SPEC (po_ann p) = Some (VTask (pf_task f)) /\ kget K_TASK_SPEC (po_lbl p) = Some (VTask (pf_lbl_task f)) /\
+  kget K_JOB_VERSION (po_ann p) = Some (VNum (pf_version f)) /\ kget K_RETRY (po_ann p) = Some (VNum (pf_retry f)).
+Proof.
+  intros j tk x i ta tl p f. destruct (make_pod_is_pod_of j (t_name tk) i ta tl) as [].
+  subst p f. cbn [create_job_pod pf_idx pf_lbl_idx pf_task pf_lbl_task pf_version pf_retry]. auto 10.
+Qed.
+
+(* ================= minResources: WHICH requests are summed (independent specification) ================= *)
+(* hand out n units to a list of capacities, in order, as much as each can take *)
+Fixpoint greedy (caps : list Z) (n : Z) : list Z :=
+  match caps with
+  | [] => []
+  | c :: r => let k := Z.max 0 (Z.min c n) in k :: greedy r (n - k)
+  end.
+Definition zsum (l : list Z) : Z := fold_right Z.add 0 l.
+(* Σ_t k_t × (the request of one pod of t) *)
+Fixpoint rsum (ks : list Z) (l : list ptask) : res3 :=
+  match ks, l with
+  | k :: ks', t :: l' => radd (rtimes k t) (rsum ks' l')
+  | _, _ => r0
+  end.
+Definition own_min (t : ptask) : Z := match pt_min t with Some m => m | None => 0 end.
+
+Lemma radd_r0_r : forall x, radd x r0 = x.
+Proof. intros [a b c]. unfold radd, r0; cbn. f_equal; lia. Qed.
+Lemma radd_r0_l : forall x, radd r0 x = x.
+Proof. intros [a b c]. reflexivity. Qed.
+Lemma rtimes_0 : forall t, rtimes 0 t = r0.
+Proof. reflexivity. Qed.
+
+Lemma rsum_greedy_0 : forall l caps, rsum (greedy caps 0) l = r0.
+Proof.
+  induction l as [|t l IH]; intros [|c caps]; cbn [greedy rsum]; auto.
+  assert (E : Z.max 0 (Z.min c 0) = 0) by lia. rewrite E, Z.sub_0_r, rtimes_0, IH. reflexivity.
+Qed.
+
+Lemma zsum_greedy_0 : forall caps, zsum (greedy caps 0) = 0.
+Proof.
+  induction caps as [|c0 caps IHc]; [reflexivity|]. cbn [greedy zsum fold_right].
+  assert (E : Z.max 0 (Z.min c0 0) = 0) by lia. rewrite E, Z.sub_0_r. fold (zsum (greedy caps 0)). lia.
+Qed.
+
+(* minAvailable below the sum of the task minimums: the first minAvailable replicas in visiting order *)
+Theorem first_count_amount : forall l count,
+  Forall ptask_ok l -> 0 <= count ->
+  first_count count l = rsum (greedy (map pt_replicas l) count) l.
+Proof.
+  induction l as [|t l IH]; intros count Hf Hc; [reflexivity|].
+  inversion Hf as [|? ? [Hr _] Hf']; subst. cbn [first_count map greedy rsum].
+  destruct (count <=? pt_replicas t) eqn:E.
+  - apply Z.leb_le in E. assert (K : Z.max 0 (Z.min (pt_replicas t) count) = count) by lia.
+    rewrite K, Z.sub_diag, rsum_greedy_0, radd_r0_r. reflexivity.
+  - apply Z.leb_gt in E. assert (K : Z.max 0 (Z.min (pt_replicas t) count) = pt_replicas t) by lia.
+    rewrite K, IH; auto; lia.
+Qed.
+
+(* loop 1: every task's own minimum, in visiting order, as long as something is left *)
+Theorem own_mins_amount : forall l jobmin cnt x c,
+  Forall ptask_ok l -> cnt <= jobmin -> own_mins jobmin cnt l = (x, c) ->
+  x = rsum (greedy (map own_min l) (jobmin - cnt)) l /\ c = cnt + zsum (greedy (map own_min l) (jobmin - cnt)).
+Proof.
+  induction l as [|t l IH]; intros jobmin cnt x c Hf Hle H; cbn [own_mins] in H.
+  - inversion H; subst. cbn. split; [reflexivity|lia].
+  - inversion Hf as [|? ? [Hr Hm] Hf']; subst. cbn [map greedy rsum].
+    change (zsum (?k :: ?r)) with (k + zsum r).
+    destruct (pt_min t) as [m|] eqn:Em.
+    + assert (Eo : own_min t = m) by (unfold own_min; rewrite Em; reflexivity). rewrite Eo. clear Eo.
+      destruct (jobmin - cnt <? m) eqn:E1.
+      * apply Z.ltb_lt in E1.
+        assert (E2 : (jobmin <=? cnt + (jobmin - cnt)) = true) by (apply Z.leb_le; lia).
+        rewrite E2 in H. inversion H; subst.
+        assert (K : Z.max 0 (Z.min m (jobmin - cnt)) = jobmin - cnt) by lia.
+        rewrite K, Z.sub_diag, rsum_greedy_0, radd_r0_r, zsum_greedy_0. split; [reflexivity|lia].
+      * apply Z.ltb_ge in E1. assert (K : Z.max 0 (Z.min m (jobmin - cnt)) = m) by lia. rewrite K.
+        destruct (jobmin <=? cnt + m) eqn:E2.
+        -- apply Z.leb_le in E2. inversion H; subst. assert (Hz : jobmin - cnt - m = 0) by lia.
+           rewrite Hz, rsum_greedy_0, radd_r0_r, zsum_greedy_0. split; [reflexivity|lia].
+        -- apply Z.leb_gt in E2. destruct (own_mins jobmin (cnt + m) l) as [x1 c1] eqn:Eo1. inversion H; subst.
+           destruct (IH jobmin (cnt + m) x1 c Hf' ltac:(lia) Eo1) as [A B].
+           replace (jobmin - cnt - m) with (jobmin - (cnt + m)) by lia.
+           rewrite <- A. split; [reflexivity|lia].
+    + assert (Eo : own_min t = 0) by (unfold own_min; rewrite Em; reflexivity). rewrite Eo. clear Eo.
+      assert (K : Z.max 0 (Z.min 0 (jobmin - cnt)) = 0) by lia. rewrite K, Z.sub_0_r, rtimes_0, radd_r0_l.
+      destruct (IH jobmin cnt x c Hf' Hle H) as [A B]. split; [exact A|lia].
+Qed.
+
+(* loop 2: the replicas beyond the task minimum, in visiting order *)
+Theorem fill_up_amount : forall l leftcnt,
+  Forall ptask_ok l -> 0 < leftcnt -> fill_up leftcnt l = rsum (greedy (map spare l) leftcnt) l.
+Proof.
+  induction l as [|t l IH]; intros leftcnt Hf Hc; [reflexivity|].
+  inversion Hf as [|? ? Ht Hf']; subst. pose proof (spare_nonneg t Ht) as Hs. destruct Ht as [Hr Hm].
+  cbn [fill_up map greedy rsum]. unfold spare in *. destruct (pt_min t) as [m|].
+  - destruct (m =? pt_replicas t) eqn:E.
+    + assert (K : Z.max 0 (Z.min 0 leftcnt) = 0) by lia. rewrite K, Z.sub_0_r, rtimes_0, radd_r0_l. apply IH; auto.
+    + apply Z.eqb_neq in E. destruct (pt_replicas t - m <=? leftcnt) eqn:E1.
+      * apply Z.leb_le in E1. assert (K : Z.max 0 (Z.min (pt_replicas t - m) leftcnt) = pt_replicas t - m) by lia. rewrite K.
+        destruct (leftcnt - (pt_replicas t - m) <=? 0) eqn:E2.
+        -- apply Z.leb_le in E2. assert (leftcnt - (pt_replicas t - m) = 0) by lia.
+           rewrite H, rsum_greedy_0, radd_r0_r. reflexivity.
+        -- apply Z.leb_gt in E2. rewrite IH; auto.
+      * apply Z.leb_gt in E1. assert (K : Z.max 0 (Z.min (pt_replicas t - m) leftcnt) = leftcnt) by lia.
+        rewrite K, Z.sub_diag, rsum_greedy_0, radd_r0_r. reflexivity.
+  - destruct (pt_replicas t <=? leftcnt) eqn:E1.
+    + apply Z.leb_le in E1. assert (K : Z.max 0 (Z.min (pt_replicas t) leftcnt) = pt_replicas t) by lia. rewrite K.
+      destruct (leftcnt - pt_replicas t <=? 0) eqn:E2.
+      * apply Z.leb_le in E2. assert (leftcnt - pt_replicas t = 0) by lia. rewrite H, rsum_greedy_0, radd_r0_r. reflexivity.
+      * apply Z.leb_gt in E2. rewrite IH; auto.
+    + apply Z.leb_gt in E1. assert (K : Z.max 0 (Z.min (pt_replicas t) leftcnt) = leftcnt) by lia.
+      rewrite K, Z.sub_diag, rsum_greedy_0, radd_r0_r. reflexivity.
+Qed.
+
+(* calcPGMinResources, the amounts: with the tasks in visiting order l (= descending priority, see
+   sort_prio_sorted) the result is Σ_t k_t × request_t where, if minAvailable is below the sum of the
+   task minimums, k hands minAvailable to the tasks' REPLICAS in order; otherwise every task first gets
+   its own minimum (in order, while something is left) and what remains goes to the replicas beyond
+   the minimum, again in order *)
+Theorem calc_min_resources_amount : forall l jobmin tm,
+  Forall ptask_ok l -> 0 <= jobmin ->
+  calc_min_resources_sorted jobmin l tm =
+  if jobmin <? tm then rsum (greedy (map pt_replicas l) jobmin) l
+  else let own := greedy (map own_min l) jobmin in
+       radd (rsum own l) (rsum (greedy (map spare l) (jobmin - zsum own)) l).
+Proof.
+  intros l jobmin tm Hf Hj. unfold calc_min_resources_sorted. destruct (jobmin <? tm).
+  - apply first_count_amount; auto.
+  - destruct (own_mins jobmin 0 l) as [x c] eqn:Eo.
+    destruct (own_mins_amount l jobmin 0 x c Hf Hj Eo) as [A B]. rewrite Z.sub_0_r in A, B. cbn zeta. rewrite <- A.
+    assert (Hf2 : Forall (fun t => match pt_min t with Some m => 0 <= m | None => True end) l).
+    { eapply Forall_impl; [|exact Hf]. intros t [_ H]. destruct (pt_min t); auto. lia. }
+    destruct (own_mins_count l jobmin 0 x c Hf2 Hj Eo) as [Hc _].
+    destruct (jobmin <=? c) eqn:E.
+    + apply Z.leb_le in E. assert (jobmin - zsum (greedy (map own_min l) jobmin) = 0) by lia.
+      rewrite H, rsum_greedy_0, radd_r0_r. reflexivity.
+    + apply Z.leb_gt in E. rewrite fill_up_amount by (auto; lia). rewrite B. reflexivity.
+Qed.
+
+(* what greedy does: never more than the capacity, never negative, exactly n in total when it fits *)
+Theorem greedy_spec : forall caps n,
+  Forall (fun c => 0 <= c) caps -> 0 <= n ->
+  Forall2 (fun c k => 0 <= k <= c) caps (greedy caps n) /\
+  zsum (greedy caps n) = Z.min n (zsum caps).
+Proof.
+  induction caps as [|c caps IH]; intros n Hf Hn; cbn [greedy zsum fold_right].
+  - split; [constructor|lia].
+  - inversion Hf as [|? ? Hc Hf']; subst.
+    destruct (IH (n - Z.max 0 (Z.min c n)) Hf' ltac:(lia)) as [A B]. split.
+    + constructor; [lia|exact A].
+    + fold (zsum (greedy caps (n - Z.max 0 (Z.min c n)))). fold (zsum caps). rewrite B.
+      assert (0 <= zsum caps) by (clear - Hf'; induction Hf'; cbn; [lia|fold (zsum l); lia]). lia.
+Qed.
+
+(* ================= what the executable laws MEAN (soundness: law = true -> the clause as a Prop) ================= *)
+Lemma inserts_perm : forall (A : Type) (x : A) l o, In o (inserts x l) -> Permutation o (x :: l).
+Proof.
+  induction l as [|y r IH]; intros o H; cbn [inserts] in H.
+  - destruct H as [<-|[]]. apply Permutation_refl.
+  - destruct H as [<-|H]; [apply Permutation_refl|].
+    apply in_map_iff in H. destruct H as [o' [<- H]]. apply IH in H.
+    eapply Permutation_trans; [apply perm_skip; exact H|apply perm_swap].
+Qed.
+
+Lemma perms_sound : forall (A : Type) (l o : list A), In o (perms l) -> Permutation o l.
+Proof.
+  induction l as [|x r IH]; intros o H; cbn [perms] in H.
+  - destruct H as [<-|[]]. constructor.
+  - apply in_flat_map in H. destruct H as [o' [H1 H2]]. apply inserts_perm in H2.
+    eapply Permutation_trans; [exact H2|apply perm_skip, IH, H1].
+Qed.
+
+Lemma res_eqb_eq : forall a b, res_eqb a b = true -> a = b.
+Proof.
+  intros [a1 a2 a3] [b1 b2 b3] H. unfold res_eqb in H. cbn in H.
+  apply andb_true_iff in H. destruct H as [H H3]. apply andb_true_iff in H. destruct H as [H1 H2].
+  apply Z.eqb_eq in H1, H2, H3. congruence.
+Qed.
+
+(* law 206 accepts a minResources value only if it is the value calcPGMinResources computes for SOME
+   visiting order of the job's tasks that is a permutation of them in descending priority; and then
+   (tasks well formed) it is the amount of the independent specification: Σ k_t × request_t with k the
+   greedy hand-out of calc_min_resources_amount *)
+Theorem law_minres_sound : forall sp xs got,
+  law_minres sp xs got = true ->
+  exists o, Permutation o (ptasks sp xs) /\ desc_prio o = true /\
+            got = calc_min_resources_sorted (s_min sp) o (total_min (ptasks sp xs)).
+Proof.
+  intros sp xs got H. unfold law_minres in H. cbv zeta in H. apply andb_true_iff in H. destruct H as [H _].
+  apply existsb_exists in H. destruct H as [o [Ho He]]. apply filter_In in Ho. destruct Ho as [Ho Hd].
+  exists o. split; [apply perms_sound; exact Ho|]. split; [exact Hd|apply res_eqb_eq; exact He].
+Qed.
+
+Theorem law_minres_amount : forall sp xs got,
+  Forall ptask_ok (ptasks sp xs) -> 0 <= s_min sp ->
+  law_minres sp xs got = true ->
+  exists o, Permutation o (ptasks sp xs) /\ desc_prio o = true /\
+    got = if s_min sp <? total_min (ptasks sp xs) then rsum (greedy (map pt_replicas o) (s_min sp)) o
+          else let own := greedy (map own_min o) (s_min sp) in
+               radd (rsum own o) (rsum (greedy (map spare o) (s_min sp - zsum own)) o).
+Proof.
+  intros sp xs got Hf Hj H. destruct (law_minres_sound sp xs got H) as [o [Hp [Hd He]]].
+  exists o. split; [exact Hp|]. split; [exact Hd|]. rewrite He. apply calc_min_resources_amount; [|exact Hj].
+  eapply Permutation_Forall; [apply Permutation_sym; exact Hp|exact Hf].
+Qed.
+
+(* law 211: the k-th pod observed is the pod of the k-th index of this task *)
+Theorem law_created_pods_sound : forall ver retry t x idxs got,
+  law_created_pods ver retry t x idxs got = true ->
+  Forall2 (fun i p => pf_task p = t_name t /\ pf_lbl_task p = t_name t /\ pf_idx p = i /\ pf_lbl_idx p = i /\
+                      pf_version p = ver /\ pf_retry p = retry /\
+                      pf_user_lbl p = Z.max 0 (x_cpu x) /\ pf_user_ann p = Z.max 0 (x_mem x)) idxs got.
+Proof.
+  intros ver retry t x. induction idxs as [|i idxs IH]; intros [|p got] H; cbn [law_created_pods] in H; try discriminate.
+  - constructor.
+  - repeat (apply andb_true_iff in H; let H' := fresh "H" in destruct H as [H H']).
+    constructor; [|apply IH; assumption].
+    repeat match goal with
+    | h : Pos.eqb _ _ = true |- _ => apply Pos.eqb_eq in h
+    | h : Z.eqb _ _ = true |- _ => apply Z.eqb_eq in h
+    end. auto 10.
+Qed.
+
+(* law 204 (markers parsed from the Go pod): every conjunct of the clause *)
+Theorem law_markers_sound : forall t i ver retry cpu mem m,
+  law_markers t i ver retry cpu mem m = true ->
+  m_task m = Zpos t /\ m_idx m = i /\ m_lbl_task m = Zpos t /\ m_lbl_idx m = i /\
+  m_version m = ver /\ m_retry m = retry /\
+  m_owner m = true /\ m_group m = true /\ m_jobname m = true /\ m_queue m = true /\ m_jobid m = true /\
+  m_user_lbl m = Z.max 0 cpu /\ m_user_ann m = Z.max 0 mem /\ m_shape m = true.
+Proof.
+  intros t i ver retry cpu mem m H. unfold law_markers in H.
+  repeat (apply andb_true_iff in H; let H' := fresh "H" in destruct H as [H H']).
+  repeat match goal with h : Z.eqb _ _ = true |- _ => apply Z.eqb_eq in h end. auto 20.
+Qed.
+
+(* law 205: a PodGroup the law accepts mirrors the spec in every field the text names
+   (minResources: up to the order of equal priorities, see law_minres_sound) *)
+Theorem law_pg_sound : forall sp xs jp q g,
+  law_pg sp xs jp q g = true ->
+  g_minmember g = s_min sp /\ g_prio g = jp /\ q = true /\
+  (forall t, In t (s_tasks sp) -> tm_get (t_name t) (g_taskmin g) = Some (min_task_member t)) /\
+  law_minres sp xs (g_res g) = true.
+Proof.
+  intros sp xs jp q g H. unfold law_pg in H.
+  repeat (apply andb_true_iff in H; let H' := fresh "H" in destruct H as [H H']).
+  apply Z.eqb_eq in H, H2. rewrite forallb_forall in H3.
+  repeat split; auto.
+  intros t Ht. specialize (H3 t Ht). destruct (tm_get (t_name t) (g_taskmin g)); [|discriminate].
+  apply Z.eqb_eq in H3. congruence.
+Qed.
+
+(* the amount specification on a concrete job: tasks a (3 replicas, min 1, 100m/64Mi) and b (2 replicas,
+   250m), minAvailable 4: a's own minimum (1), then 3 more in order: 2 of a, 1 of b *)
+Example minres_amount_example :
+  let l := [mkPT (mkTask 1 3 (Some 1) [] None) 100 64 10; mkPT (mkTask 2 2 None [] None) 250 0 20] in
+  Forall ptask_ok l /\ greedy (map own_min l) 4 = [1; 0] /\ greedy (map spare l) (4 - 1) = [2; 1] /\
+  calc_min_resources_sorted 4 l (total_min l) = radd (rsum [1; 0] l) (rsum [2; 1] l) /\
+  radd (rsum [1; 0] l) (rsum [2; 1] l) = mkR 4 (3 * 100 + 1 * 250) (3 * 64).
+Proof.
+  cbv zeta. split; [repeat constructor; cbn; lia|]. vm_compute. auto.
+Qed.
+
+(* selector 6 compares the Go pods with the fields READ from the model's pod objects; those are the
+   numeric record of the earlier rounds (so the correspondence now runs on the map-level model) *)
+Theorem read_fields_make_pod : forall ver retry (tk : task) x i,
+  read_fields (make_pod (mkJob 1 1 1 1 ver retry) (t_name tk) i (tmpl (x_mem x)) (tmpl (x_cpu x))) =
+  create_job_pod ver retry tk x i.
+Proof.
+  intros ver retry tk x i. unfold create_job_pod, tmpl.
+  destruct (0 <? x_mem x) eqn:Em; destruct (0 <? x_cpu x) eqn:Ec;
+    [apply Z.ltb_lt in Em, Ec|apply Z.ltb_lt in Em; apply Z.ltb_ge in Ec|apply Z.ltb_ge in Em; apply Z.ltb_lt in Ec|
+     apply Z.ltb_ge in Em, Ec];
+    cbv -[Z.max x_cpu x_mem t_name]; f_equal; lia.
+Qed.
+
+Theorem task_pod_objs_fields : forall ver retry tk x idxs,
+  map read_fields (task_pod_objs ver retry tk x idxs) = create_task_pods ver retry tk x idxs.
+Proof.
+  intros. unfold task_pod_objs, build_pods, create_task_pods. rewrite map_map.
+  apply map_ext. intros i. apply read_fields_make_pod.
+Qed.
+
+(* and every one of them is the pod of its own (task, index) in the sense of is_pod_of *)
+Theorem task_pod_objs_own : forall ver retry tk x idxs,
+  Forall2 (fun i p => is_pod_of (mkJob 1 1 1 1 ver retry) (t_name tk) i (tmpl (x_mem x)) (tmpl (x_cpu x)) p)
+          idxs (task_pod_objs ver retry tk x idxs).
+Proof. intros. apply build_pods_own. Qed.
+
+(* a STALE lister copy (audit W3): whatever the lister shows and whatever the API server holds, a call
+   that writes and returns OK leaves a PodGroup that mirrors the spec (every mirrored field is recomputed
+   from the spec; only entries of vanished tasks are inherited from the copy that was read) *)
+Theorem pg_written_mirrors : forall g api sp xs jp api',
+  NoDup (map t_name (s_tasks sp)) -> pg_update g sp xs jp <> g ->
+  create_or_update_pg (Some g) api sp xs jp false = (api', false) ->
+  exists g', api' = Some g' /\ pg_mirrors g' sp xs jp.
+Proof.
+  intros g api sp xs jp api' Hnd Hne H. unfold create_or_update_pg in H.
+  destruct (pg_eq_dec (pg_update g sp xs jp) g) as [E|_]; [contradiction|].
+  destruct api; [|discriminate]. inversion H; subst. eexists; split; [reflexivity|].
+  apply (podgroup_mirrors_spec sp xs jp Hnd).
+Qed.
